@@ -12,7 +12,7 @@
 //   relations  perspective == frustum(-r,r,-t,t) and perspectiveFov == perspective(fov, width/height), element by element;
 //              infinitePerspective: z(d) = 1 - (1 - z_near) near/d for d = near * 2^j and -> 1; tweakedInfinitePerspective: -> 1 - ep, < 1.
 //   dispatch   BITS: every unsuffixed / half-suffixed function returns exactly the matrix of the variant selected by the macros.
-//   project    gluProject / gluUnProject definitions in long double (unProject by an exact Gauss-Jordan solve) with first-order
+//   project    gluProject / gluUnProject definitions in long double (unProject by a Gauss-Jordan solve in __float128) with first-order
 //              forward error bounds; round trips both ways with the bound of one step propagated through the Jacobian of the other;
 //              volume corners -> viewport rectangle corners and depth {0,1}; pickMatrix: pick-region corners -> (+-1,+-1), z, w untouched.
 #include "fp.hpp"
@@ -155,7 +155,7 @@ template <class T> static void ortho_p(pbt::Ctx& c) {
 	if (mt > 1e-2L) c.cls("ill-conditioned (tolerance > 1e-2, counted trivial)");
 	else if (off && (v == 9 || n != 1)) c.nontrivial();
 }
-REG2(ortho_p, "ortho", 250000, 8000000,
+REG2(ortho_p, "ortho", 250000, 4000000,
      "one of ortho{RH,LH}_{NO,ZO}, orthoZO/NO/LH/RH, ortho (6 arguments) and ortho (4 arguments, gluOrtho2D) per case; left<right and bottom<top as small ints / symmetric / one side 0 / screen 0..N / "
      "off-centre / far off-centre with widths 1e-3..1e4, 0<near<far with far/near from 1.001 to 1e6; the 8 volume corners must map to the clip cube corners of the variant's convention, dispatching names "
      "must be bit-identical to the selected variant; non-trivial = off-centre volume (translation terms matter), near != 1, tolerance <= 1e-2");
@@ -179,7 +179,7 @@ template <class T> static void frustum_p(pbt::Ctx& c) {
 	if (mt > 1e-2L) c.cls("ill-conditioned (tolerance > 1e-2, counted trivial)");
 	else if (off && n != 1) c.nontrivial();
 }
-REG2(frustum_p, "frustum", 250000, 8000000,
+REG2(frustum_p, "frustum", 250000, 4000000,
      "one of frustum{RH,LH}_{NO,ZO}, frustumZO/NO/LH/RH, frustum per case; near-plane extents and depths as for ortho; near corners (x,y,-+near) and far corners (x f/n, y f/n, -+far) must map to the clip "
      "cube corners with clip w > 0; dispatching names bit-identical to the selected variant; non-trivial = off-centre volume, near != 1, tolerance <= 1e-2");
 
@@ -208,7 +208,7 @@ template <class T> static void perspective_p(pbt::Ctx& c) {
 	if (mt > 1e-2L) c.cls("ill-conditioned (tolerance > 1e-2, counted trivial)");
 	else if (asp != 1 && n != 1) c.nontrivial();
 }
-REG2(perspective_p, "perspective", 250000, 8000000,
+REG2(perspective_p, "perspective", 250000, 4000000,
      "one of perspective{RH,LH}_{NO,ZO}, perspectiveZO/NO/LH/RH, perspective per case; fovy from a table / uniform (0.05,3) / near 0 / near pi, aspect table / 1 / log-uniform (0.1,10) / integer ratios, "
      "0<near<far as for ortho; corners of the frustum with top = near tan(fovy/2) (long double), right = top aspect must map to the clip cube corners; the matrix must equal frustum(-right,right,-top,top,near,far) "
      "of the same convention element by element; dispatching names bit-identical; non-trivial = aspect != 1 (x and y scale differ), near != 1, tolerance <= 1e-2");
@@ -234,7 +234,7 @@ template <class T> static void pfov_p(pbt::Ctx& c) {
 	if (mt > 1e-2L) c.cls("ill-conditioned (tolerance > 1e-2, counted trivial)");
 	else if (w != h && n != 1) c.nontrivial();
 }
-REG2(pfov_p, "perspectiveFov", 250000, 8000000,
+REG2(pfov_p, "perspectiveFov", 250000, 4000000,
      "one of perspectiveFov{RH,LH}_{NO,ZO}, perspectiveFovZO/NO/LH/RH, perspectiveFov per case; fov as for perspective, width/height from a table of screen sizes / integers 1..4096 / log-uniform, depths as for ortho; "
      "corners of the frustum with top = near tan(fov/2), right = top width/height must map to the clip cube corners; the matrix must equal perspective(fov, width/height, near, far) of the same convention element by "
      "element; dispatching names bit-identical; non-trivial = width != height, near != 1, tolerance <= 1e-2");
@@ -322,7 +322,7 @@ template <class T> static void infinite_p(pbt::Ctx& c) {
 	if (mt > 1e-2L) c.cls("ill-conditioned (tolerance > 1e-2, counted trivial)");
 	else if (asp != 1 && n != 1) c.nontrivial();
 }
-REG2(infinite_p, "infinitePerspective", 200000, 6000000,
+REG2(infinite_p, "infinitePerspective", 200000, 3000000,
      "one of infinitePerspective{RH,LH}_{NO,ZO}, infinitePerspective (and infinitePerspectiveLH/RH when they link) per case; fovy, aspect as for perspective, near = 1 / power of two / table / log-uniform 1e-3..1e4; "
      "near corners -> x,y = -1/+1, z = -1|0; side planes stay at x,y = -1/+1 at distances near*2^j (j = 1,3,10,24,40); depth follows z(d) = 1 - (1 - z_near) near/d, increases with d and reaches +1 at the "
      "point at infinity (0,0,-+1,0); clip w > 0; unsuffixed name bit-identical to the selected variant; non-trivial = aspect != 1, near != 1");
@@ -364,7 +364,7 @@ template <class T> static void tweaked_p(pbt::Ctx& c) {
 	if (mt > 1e-2L) c.cls("ill-conditioned (tolerance > 1e-2, counted trivial)");
 	else if (asp != 1 && n != 1) c.nontrivial();
 }
-REG2(tweaked_p, "tweakedInfinitePerspective", 150000, 4000000,
+REG2(tweaked_p, "tweakedInfinitePerspective", 150000, 2000000,
      "3-argument and 4-argument overload (ep = epsilon<T>() / table / log-uniform 16 eps..0.1), fovy, aspect, near as for infinitePerspective; only in the default configuration (right-handed, -1..1: the function has no "
      "variants and names no macro); near corners -> x,y = -1/+1, z = -1, side planes stay at -1/+1, depth increases with distance, and ends strictly below 1 and within ep of 1 at the point at infinity; non-trivial = aspect != 1, near != 1");
 #endif
@@ -527,7 +527,7 @@ template <class T, class VPT> static void project_case(pbt::Ctx& c) {
 	else if (kind != 0 && (vpr[0] != 0 || vpr[1] != 0) && vpr[2] != vpr[3]) c.nontrivial();
 }
 template <class T> static void project_p(pbt::Ctx& c) { if (c.coin()) project_case<T, int>(c); else project_case<T, T>(c); }
-REG2(project_p, "project_unProject", 120000, 4000000,
+REG2(project_p, "project_unProject", 80000, 1500000,
      "projectNO/ZO, unProjectNO/ZO and the dispatching project/unProject with ivec4 and vec4 viewports (origin 0 / non-zero / fractional, sizes 1..4096); projection = identity (object space is the clip cube) or "
      "ortho/frustum/perspective of either handedness in the depth convention of the function under test; model = identity / translation / axis rotation / random rigid / rigid x 2^k; object point = corner / face / interior "
      "of the view volume; project against the gluProject definition in long double with its forward bound, volume corners -> viewport corners with depth 0/1, unProject against an exact Gauss-Jordan solve, round trips both "
@@ -588,7 +588,7 @@ template <class T, class VPT> static void pick_case(pbt::Ctx& c) {
 	if (offc && de[0] != de[1] && (R)de[0] != vpr[2] && (R)de[1] != vpr[3]) c.nontrivial();
 }
 template <class T> static void pick_p(pbt::Ctx& c) { if (c.coin()) pick_case<T, int>(c); else pick_case<T, T>(c); }
-REG2(pick_p, "pickMatrix", 200000, 6000000,
+REG2(pick_p, "pickMatrix", 200000, 3000000,
      "center at the viewport centre / an integer pixel / anywhere from -0.2 to 1.2 of the viewport, delta > 0 small integers / the viewport size / log-uniform, ivec4 and vec4 viewports with zero, non-zero and fractional "
      "origin; the four corners center +- delta/2, expressed in ndc of that viewport, must map to (+-1,+-1) and z, w must pass through unchanged (all other elements exactly those of the identity); "
      "non-trivial = centre off the viewport centre in x and y, delta.x != delta.y, delta != viewport size");
